@@ -24,13 +24,13 @@ def prop(pid, **kw):
 _alloc_stages = [
     # bounded-exhaustive execution of the real allocator (non-race build for throughput)
     dict(pkg="alloc", test="TestExhaustive", sub="exh2x5", race=False, exhaustive=True,
-         cases=dict(quick=6 * 14 * 14, thorough=0)),
+         cases=dict(quick=7 * 14 * 14, thorough=0)),
     dict(pkg="alloc", test="TestExhaustive", sub="exh3x4", race=False, exhaustive=True,
-         cases=dict(quick=6 * 22 * 22, thorough=0)),
+         cases=dict(quick=7 * 22 * 22, thorough=0)),
     dict(pkg="alloc", test="TestExhaustive", sub="exh2x7", race=False, exhaustive=True,
-         cases=dict(quick=0, thorough=6 * 14 * 14), batch=dict(thorough=19), timeout=3600),
+         cases=dict(quick=0, thorough=7 * 14 * 14), batch=dict(thorough=22), timeout=3600),
     dict(pkg="alloc", test="TestExhaustive", sub="exh3x5", race=False, exhaustive=True,
-         cases=dict(quick=0, thorough=6 * 22 * 22), batch=dict(thorough=46), timeout=3600),
+         cases=dict(quick=0, thorough=7 * 22 * 22), batch=dict(thorough=53), timeout=3600),
     # long random scripts under the race detector
     dict(pkg="alloc", test="TestRandom", sub="random", race=True,
          cases=dict(quick=2000, thorough=50000), timeout=3600),
@@ -48,7 +48,7 @@ prop("C13", level="exploration", stages=_alloc_stages,
      level_note="Trusts the reference ledger in harness/alloc; unbounded scripts/amounts are sampled, not enumerated.",
      rule=("Real allocator.Allocator executed in lock-step with a reference model written from the statement. "
            "(1) bounded-exhaustive: every script over {alloc,release (incl. over-release),release-peer} x peers x amounts {1,2,3} "
-           "for limits total in {3,4,5} x per-peer in {2,3}, followed by releasing every peer; one evaluation = one "
+           "for limits (total,per-peer) in {3,4,5}x{2,3} plus (2,3), followed by releasing every peer; one evaluation = one "
            "(limits, first op, second op) prefix whose suffixes are all enumerated (scripts_executed counts the scripts); "
            "(2) 200-op random scripts, 2-6 peers, large amounts; (3) concurrent histories of 3-6 goroutines checked with "
            "porcupine against the model. After every operation: totals <= limits, Stats/AllocatedForPeer == granted-released "
@@ -127,3 +127,22 @@ prop("C19", level="exploration",
      min_nontrivial=dict(quick=5000, thorough=100000),
      min_counters=dict(scripts_executed=dict(quick=100000, thorough=10000000)),
      assumptions=["blocks are identified by CID; data passed to SendResponse matches its link"])
+
+
+# ---------------------------------------------------------------- C08: default selector validation
+prop("C08", level="exploration",
+     stages=[
+         dict(pkg="selval", test="TestValidator", sub="validator", race=True,
+              cases=dict(quick=20000, thorough=400000), timeout=3600),
+     ],
+     technique="runtime monitoring: differential oracle - the real ValidateMaxRecursionDepth / default-configured responder versus an independent recursive-descent analyser of the selector spec, over grammar-generated well-formed selectors with planted limits",
+     level_text=("Grammar-generated well-formed selectors (kept iff selector.ParseSelector accepts them) with recursion limits planted under every "
+                 "clause kind are given to the real validator; its verdict must equal that of an independent analyser written from the "
+                 "selector spec. End-to-end requests to a default-configured responder check the RequestRejected status on the wire."),
+     level_note="Well-formedness is what go-ipld-prime's ParseSelector accepts; the analyser knows the clause kinds matcher, all, fields, index, range, union, recursive, edge, interpret-as (others are skipped and counted).",
+     rule=("One evaluation = one generated selector (nesting depth <= 6, field names that collide with selector keys, limits {0,1,2,50,99,100} "
+           "plus planted {none,101,102,10^6,...}) compared between validator and analyser. Non-trivial = parsed and analysed; distinct by the "
+           "selector's dag-json text. distinct_sets.offending_recursion_contexts = distinct (clause kinds on the path, limit kind) of offending recursions."),
+     min_nontrivial=dict(quick=5000, thorough=100000),
+     min_counters=dict(selectors_with_offending_recursion=dict(quick=2000, thorough=40000), offending_recursions_under_interpret_as=dict(quick=300, thorough=5000)),
+     assumptions=["go-ipld-prime's ParseSelector defines well-formedness"])
